@@ -1,10 +1,11 @@
 from checks import finite
 from checks.e3num import run_e3num
+from checks.e3tables import run_e3tables
 from checks.generic import run_components
 
-ASSUME = ["E3 numeric (kernel executed on pseudo-random affine simplex data vs an independent UFL/basix reference) is bounded: corpus forms, fixed seeds, rtol 1e-9", "A-INT: Python/numpy ints treated as mathematical integers", "A-FLOAT: floats treated as reals"]
+ASSUME = ["E3 tables: run-time contract on build_optimized_tables (offsets, permutation axis, values against an independent basix tabulation) is bounded by the corpus calls", "E3 numeric (kernel executed on pseudo-random affine simplex data vs an independent UFL/basix reference) is bounded: corpus forms, fixed seeds, rtol 1e-9", "A-INT: Python/numpy ints treated as mathematical integers", "A-FLOAT: floats treated as reals"]
 
 
 def run(tier, seed):
-    return run_components("C01", tier, seed, ["e1", finite.c03_table_predicates, "e2", run_e3num, lambda rep, t, s: __import__("checks.e3ir", fromlist=["x"]).run_e3ir(rep, "C01", t)], ASSUME,
+    return run_components("C01", tier, seed, ["e1", finite.c03_table_predicates, "e2", run_e3num, lambda rep, t, s: __import__("checks.e3ir", fromlist=["x"]).run_e3ir(rep, "C01", t), lambda rep, t, sd: run_e3tables(rep, t, sd, ("T-VALUE", "T-PRESENT"))], ASSUME,
                           ["kernelvc (E2 walker; scoping mirrors C/formatter.py)", "UFL form data as oracle for extents"])
